@@ -117,11 +117,60 @@ class AcceptorModel:
                 # must sit after the role assignment inside the same accepted-context block
                 self.norole_in_section = enclosing(rj[0], (ast.If,)) is enclosing(ifs[0], (ast.If,)) and rj[0].lineno > ifs[0].lineno
             # reply
-            rp = [i for i in walk_no_nested(fn) if isinstance(i, ast.If) and norm(i.test) == "context.result == 0 and has_role"]
+            # the block that builds the role reply, found by what it does (constructs the negotiation item);
+            # its guard is the path condition through the if/elif chain down to it
+            rp = []
+            for i in walk_no_nested(fn):
+                if not isinstance(i, ast.If):
+                    continue
+                for branch, taken in ((i.body, True), (i.orelse, False)):
+                    if any(isinstance(s_, ast.Assign) and isinstance(s_.value, ast.Call) and norm(s_.value.func) == "SCP_SCU_RoleSelectionNegotiation" for s_ in branch):
+                        rp.append((i, taken))
             if len(rp) != 1:
-                raise AnalysisError(f"{fname}: reply branch guard changed")
-            self.reply = self._reply_masks(rp[0], "ac_context")
-            self.reply_node = rp[0]
+                raise AnalysisError(f"{fname}: reply branch not found ({len(rp)} candidates)")
+            node, taken = rp[0]
+            atoms = {}
+
+            def add(test, truth):
+                parts = test.values if isinstance(test, ast.BoolOp) and isinstance(test.op, ast.And) and truth else [test]
+                if isinstance(test, ast.BoolOp) and not (isinstance(test.op, ast.And) and truth):
+                    atoms[norm(test)] = truth
+                    return
+                for p_ in parts:
+                    t_ = norm(p_)
+                    tr_ = truth
+                    for a_, b_ in ((" != ", " == "), (" is not ", " is "), (" not in ", " in ")):
+                        if a_ in t_:
+                            t_, tr_ = t_.replace(a_, b_, 1), not tr_
+                            break
+                    if t_.startswith("not "):
+                        t_, tr_ = t_[4:], not tr_
+                    atoms[t_] = tr_
+
+            add(node.test, taken)
+            child, par = node, enclosing(node, (ast.If,))
+            loop_ = enclosing(node, (ast.For,))
+            while par is not None and (loop_ is None or any(x is par for x in ast.walk(loop_))):
+                if any(x is child for x in par.orelse):
+                    add(par.test, False)
+                elif any(x is child for x in par.body):
+                    add(par.test, True)
+                child, par = par, enclosing(par, (ast.If,))
+                if par is not None and loop_ is not None and not any(x is par for x in ast.walk(loop_)):
+                    break
+            self.reply_guard_atoms = atoms
+            if not (atoms.get("context.result == 0") is True and atoms.get("has_role") is True):
+                raise AnalysisError(f"{fname}: reply branch guard changed: {atoms}")
+
+            class _Blk:
+                pass
+
+            blk = _Blk()
+            blk.body = node.body if taken else node.orelse
+            blk.test = node.test
+            blk.lineno = node.lineno
+            self.reply = self._reply_masks(blk, "ac_context")
+            self.reply_node = node
         else:
             # unrestricted: every storage context accepted with both roles, table lookup with (True, True)
             loop = [f for f in walk_no_nested(fn) if isinstance(f, ast.For) and norm(f.iter) == "storage_contexts"]
